@@ -185,9 +185,12 @@ META = {
                  "default, score none, locations+explain) is compared with `eval` on random corpora and query trees on every run."),
         "design_ref": "DESIGN.md section 4, C02",
         "note": ("trusted: Lean kernel, Go harness incl. its small oracles for wildcard/regexp/fuzzy acceptance over the vocabulary, the "
-                 "'simple' analyzer, zapx/vellum/roaring. The operational searcher state machines are not yet modelled in Lean: "
-                 "soundness/completeness of the real searchers is established by the correspondence, not by a refinement proof."),
-        "technique": "Lean 4 executable specification + theorems on it; I/O-equality correspondence of hit sets with the real search",
+                 "'simple' analyzer, zapx/vellum/roaring. The boolean, conjunction and slice-disjunction searcher state machines are "
+                 "modelled in Lean and proved to enumerate exactly this meaning (Props/BoolSearcher, ConjSearcher, DisjSearcher, "
+                 "BoolLink; see C08); for the leaf, phrase and heap-disjunction searchers and the bitmap optimizations "
+                 "soundness/completeness is established by the correspondence, not by a refinement proof. Known finding: scorch "
+                 "counts a transposition as one edit in fuzzy queries (documentation and upsidedown: two)."),
+        "technique": "Lean 4 executable specification + theorems on it (incl. refinement of the composite searcher machines) + I/O-equality correspondence of hit sets with the real search on both engines, in memory and on disk with merged segments",
     },
     "C08": {
         "text": ("The searcher contract is a Lean function over the ascending list of matching ids; theorems for every ascending list "
@@ -195,11 +198,15 @@ META = {
                  "and skips only smaller ones, a 'no more' answer means no match >= target existed, the answers are strictly ascending "
                  "and a sublist of the Next-only enumeration. The searchers built by random query trees on multi-segment indexes with "
                  "deletions (both engines, three option settings) are driven by random forward programs and compared with the contract "
-                 "evaluated on the Lean denotation of the query on every run."),
-        "design_ref": "DESIGN.md section 4, C08",
-        "note": ("trusted: Lean kernel, Go harness, zapx posting iterators. Compositional Lawful-closure proofs for the compound searcher "
-                 "state machines are not yet in Lean; the contract is checked against the real compound searchers by correspondence."),
-        "technique": "Lean 4 contract + theorems; I/O-equality correspondence on Next/Advance programs over real searcher trees",
+                 "evaluated on the Lean denotation of the query on every run. Operational Lean models of the boolean, conjunction "
+                 "and slice-disjunction searchers (the Go state machines over clause searchers known only through the contract) "
+                 "are proved to refine the contract machine over their denotation for every program and every out-of-contract "
+                 "behaviour of the clauses (run_refines, *_searcher_correct), and that denotation is proved to be the documented "
+                 "meaning of the query (den_bool, den_conj, den_disj); the driver runs them beside the contract on every program."),
+        "design_ref": "DESIGN.md section 0.2 and section 4, C08",
+        "note": ("trusted: Lean kernel, Go harness, zapx posting iterators. The heap disjunction (more than ten clauses), phrase and leaf "
+                 "searchers and the bitmap optimizations have no operational model; they are checked by correspondence."),
+        "technique": "Lean 4 proof (contract theorems + refinement proofs of the boolean / conjunction / disjunction searcher machines) + I/O-equality correspondence on Next/Advance programs over real searcher trees",
     },
     "C09": {
         "text": ("Lean theorems for every sort specification, every partition into any number of shards (empty ones included), every "
